@@ -260,6 +260,14 @@ func genWriterCase(s *state) {
 	runOp(s, "w.dump")
 }
 
+// genAttr: attribute strings; only those containing 'p' make a padding file
+func genAttr(r *vhlib.Rand, pad bool) string {
+	if pad {
+		return pickStr(r, "p", "p", "p", "xp", "ph", "hpx")
+	}
+	return pickStr(r, "", "", "", "", "x", "h", "xh", "l")
+}
+
 var fileLens = []int64{0, 1, 100, 5000, 16383, 16384, 16385, 40000, 70000}
 
 func genLayout(r *vhlib.Rand) (int, int64, []fileSpec) {
@@ -280,7 +288,7 @@ func genLayout(r *vhlib.Rand) (int, int64, []fileSpec) {
 			if pad && r.Chance(70) && total%int64(ps) != 0 {
 				l = int64(ps) - total%int64(ps) // a real padding file: up to the piece boundary
 			}
-			fs = append(fs, fileSpec{l, pad})
+			fs = append(fs, mkFile(l, genAttr(r, pad)))
 			total += l
 		}
 		if total > 0 {
@@ -313,10 +321,10 @@ func genBigLayout(r *vhlib.Rand) (int, int64, []fileSpec) {
 	}
 	if r.Chance(30) { // two large files before the boundary
 		h := first / 2
-		fs = append(fs, fileSpec{h, false})
+		fs = append(fs, mkFile(h, ""))
 		first -= h
 	}
-	fs = append(fs, fileSpec{first, false})
+	fs = append(fs, mkFile(first, ""))
 	acc := int64(0)
 	for _, f := range fs {
 		acc += f.length
@@ -327,11 +335,11 @@ func genBigLayout(r *vhlib.Rand) (int, int64, []fileSpec) {
 		if pad && acc%int64(ps) != 0 {
 			l = int64(ps) - acc%int64(ps)
 		}
-		fs = append(fs, fileSpec{l, pad})
+		fs = append(fs, mkFile(l, genAttr(r, pad)))
 		acc += l
 	}
 	if acc < total {
-		fs = append(fs, fileSpec{total - acc, false})
+		fs = append(fs, mkFile(total-acc, ""))
 	} else {
 		total = acc
 	}
@@ -548,7 +556,7 @@ func genLargePieceLayout(r *vhlib.Rand) (int, int64, []fileSpec) {
 		if acc+l > total {
 			l = total - acc
 		}
-		fs = append(fs, fileSpec{l, pad})
+		fs = append(fs, mkFile(l, genAttr(r, pad)))
 		acc += l
 	}
 	return ps, total, fs
